@@ -2,7 +2,7 @@
    find_first_nonspace keep `offset <= first_nonspace <= |line|`; on a line that ends with LF and has no
    other LF the look-ahead byte line[first_nonspace] exists whenever the cursor has not passed the end. *)
 From Coq Require Import List NArith Arith Bool Lia Strings.String.
-From V Require Import Base.Bytes Base.Res Gen.BlocksConst Model.Ast Model.Strings Model.Blocks.
+From V Require Import Base.Bytes Base.Res Gen.BlocksConst Model.Ast Model.Strings Model.Scan Model.Blocks Proofs.ScanProofs.
 Import ListNotations.
 Local Open Scope string_scope.
 Local Open Scope list_scope.
@@ -140,4 +140,30 @@ Proof.
   destruct (fns_loop _ _ _ _) as [f fc]. cbn [fst] in Gx.
   unfold sub. destruct (Nat.ltb fc (c_column c)); [discriminate|]. cbn [bind]. intro E. inversion E; subst. cbn [c_fns].
   lia.
+Qed.
+
+(* ---- ATX headings: the level computed by handle_atx_heading *)
+Lemma count_hashes_repeat : forall k tl c, beqb c x23 = false ->
+  count_hashes (repeat x23 k ++ c :: tl) = Ok k.
+Proof.
+  induction k as [|k IH]; intros tl c Hc; cbn [repeat app count_hashes].
+  - now rewrite Hc.
+  - replace (beqb x23 x23) with true by reflexivity. rewrite IH by exact Hc. reflexivity.
+Qed.
+
+(* handle_atx_heading: the level it computes is the number of hashes the scanner accepted: 1..6 *)
+Lemma atx_level_bounds rest m p level :
+  scan_atx_heading_start rest = Some m -> position_hash rest = Some p ->
+  count_hashes (skipn p rest) = Ok level -> 1 <= level <= 6.
+Proof.
+  intros S P C. apply atx_level_1_6 in S. destruct S as (k & ws & tl & E & Hk & _ & Hws).
+  subst rest. destruct k as [|k]; [lia|]. cbn [repeat app position_hash] in P.
+  replace (beqb x23 x23) with true in P by reflexivity. inversion P; subst p. cbn [skipn] in C.
+  assert (exists c ws', ws = c :: ws' /\ beqb c x23 = false) as (c & ws' & -> & Hc).
+  { destruct Hws as [[Hne Hf] | [c [-> Hc]]].
+    - destruct ws as [|c ws']; [congruence|]. exists c, ws'. split; [reflexivity|].
+      inversion Hf; subst. destruct H1; subst; reflexivity.
+    - exists c, []. split; [reflexivity|]. destruct Hc; subst; reflexivity. }
+  pose proof (count_hashes_repeat (S k) (ws' ++ tl) c Hc) as R.
+  cbn [skipn repeat app] in C, R. rewrite R in C. inversion C; subst. lia.
 Qed.
